@@ -48,6 +48,6 @@ CLAIM = dict(
     text="Sequential rely/guarantee proof on the real wasmMemoryGrow with shared=true, unbounded in pages/delta/max: the returned old size is the page count "
          "at lock acquisition, the update is not lost, the maximum is respected, failures change nothing, the lock is released on every path and the buffer "
          "never moves. With the monitor meta-theorem this yields linearizability of concurrent grows. Data-race freedom of memory.size's plain read is not decided.",
-    note="Assumed: monitor reasoning for pthread mutexes; schedules are not explored; the C11 data-race clause of the property is out of reach (stated in DESIGN.md section 6).",
+    note="Assumed: monitor reasoning for pthread mutexes; schedules are not explored; the C11 data-race clause of the property is out of reach (stated in DESIGN.md section 6). The descriptor is snapshotted at release: nothing may be written after the unlock. No clause about WHEN a grow may fail (the specification leaves that open).",
     technique="CBMC contract (dfcc) with a havocking mutex model: rely/guarantee obligation at the linearization point",
 )
